@@ -420,6 +420,137 @@ template <typename T>
 struct Boom { // ::value must never be instantiated (conjunction / disjunction short circuit with a non-instantiable tail)
     static constexpr bool value = T::this_member_does_not_exist;
 };
+// ---- round 4: invocation cross product and asymmetric witnesses
+struct Inv {
+    int data;
+    MoveOnly mo;
+};
+struct InvDerived : Inv { };
+template <typename T>
+struct Ref { }; // marker: replaced by etl::reference_wrapper<T> on the etl side and std::reference_wrapper<T> on the std side
+// functor whose operator() takes P with qualifier Q: 0 none, 1 const, 2 &, 3 &&, 4 const&, 5 const noexcept
+template <typename P, int Q>
+struct Fun;
+template <typename P>
+struct Fun<P, 0> {
+    int operator()(P) { return 0; }
+};
+template <typename P>
+struct Fun<P, 1> {
+    int operator()(P) const { return 0; }
+};
+template <typename P>
+struct Fun<P, 2> {
+    int operator()(P) & { return 0; }
+};
+template <typename P>
+struct Fun<P, 3> {
+    int operator()(P) && { return 0; }
+};
+template <typename P>
+struct Fun<P, 4> {
+    int operator()(P) const& { return 0; }
+};
+template <typename P>
+struct Fun<P, 5> {
+    int operator()(P) const noexcept { return 0; }
+};
+// overload pair on the value category of the argument: different result types
+struct FunOvl {
+    int operator()(int&) const { return 0; }
+    long operator()(int&&) const { return 0; }
+    char operator()(int const&) const { return 0; }
+};
+struct FunOvlObj { // overload pair on the value category of the object
+    int operator()(int) & { return 0; }
+    long operator()(int) && { return 0; }
+    char operator()(int) const& { return 0; }
+};
+template <typename P>
+inline constexpr auto lam_p = [](P) -> int { return 0; };
+template <typename P>
+using LamP = decltype(lam_p<P>);
+// asymmetric witnesses: everything a concept needs except exactly one requirement
+struct Absent { };
+struct Deleted { };
+struct WA { };
+struct WB { };
+// binary callable over {WA, WB}: slot 0 (A,A), 1 (B,B), 2 (A,B), 3 (B,A); the slot is absent / deleted / returns Ret; Slot -1: complete
+template <int Slot, typename Ret>
+struct Rel {
+    template <int S>
+    static constexpr bool good = Slot != S;
+    template <int S>
+    static constexpr bool bad = Slot == S and not std::is_same_v<Ret, Absent> and not std::is_same_v<Ret, Deleted>;
+    template <int S>
+    static constexpr bool del = Slot == S and std::is_same_v<Ret, Deleted>;
+    using B = std::conditional_t<std::is_same_v<Ret, Absent> or std::is_same_v<Ret, Deleted>, bool, Ret>;
+    bool operator()(WA, WA) const requires good<0>;
+    bool operator()(WB, WB) const requires good<1>;
+    bool operator()(WA, WB) const requires good<2>;
+    bool operator()(WB, WA) const requires good<3>;
+    B operator()(WA, WA) const requires bad<0>;
+    B operator()(WB, WB) const requires bad<1>;
+    B operator()(WA, WB) const requires bad<2>;
+    B operator()(WB, WA) const requires bad<3>;
+    bool operator()(WA, WA) const requires del<0> = delete;
+    bool operator()(WB, WB) const requires del<1> = delete;
+    bool operator()(WA, WB) const requires del<2> = delete;
+    bool operator()(WB, WA) const requires del<3> = delete;
+};
+// heterogeneous ==/!=: slot 0 L==R, 1 L!=R, 2 R==L, 3 R!=L is deleted / returns Ret (absent is meaningless: C++20 rewrites it)
+template <int Slot, typename Ret>
+struct EqL { };
+template <int Slot, typename Ret>
+struct EqR { };
+template <int Slot, typename Ret>
+using EqB = std::conditional_t<std::is_same_v<Ret, Deleted>, bool, Ret>;
+template <int S, typename R> bool operator==(EqL<S, R> const&, EqR<S, R> const&) requires(S != 0);
+template <int S, typename R> bool operator!=(EqL<S, R> const&, EqR<S, R> const&) requires(S != 1);
+template <int S, typename R> bool operator==(EqR<S, R> const&, EqL<S, R> const&) requires(S != 2);
+template <int S, typename R> bool operator!=(EqR<S, R> const&, EqL<S, R> const&) requires(S != 3);
+template <int S, typename R> EqB<S, R> operator==(EqL<S, R> const&, EqR<S, R> const&) requires(S == 0 and not std::is_same_v<R, Deleted>);
+template <int S, typename R> EqB<S, R> operator!=(EqL<S, R> const&, EqR<S, R> const&) requires(S == 1 and not std::is_same_v<R, Deleted>);
+template <int S, typename R> EqB<S, R> operator==(EqR<S, R> const&, EqL<S, R> const&) requires(S == 2 and not std::is_same_v<R, Deleted>);
+template <int S, typename R> EqB<S, R> operator!=(EqR<S, R> const&, EqL<S, R> const&) requires(S == 3 and not std::is_same_v<R, Deleted>);
+template <int S, typename R> bool operator==(EqL<S, R> const&, EqR<S, R> const&) requires(S == 0 and std::is_same_v<R, Deleted>) = delete;
+template <int S, typename R> bool operator!=(EqL<S, R> const&, EqR<S, R> const&) requires(S == 1 and std::is_same_v<R, Deleted>) = delete;
+template <int S, typename R> bool operator==(EqR<S, R> const&, EqL<S, R> const&) requires(S == 2 and std::is_same_v<R, Deleted>) = delete;
+template <int S, typename R> bool operator!=(EqR<S, R> const&, EqL<S, R> const&) requires(S == 3 and std::is_same_v<R, Deleted>) = delete;
+// homogeneous ==/!=: slot 0 ==, 1 !=
+template <int Slot, typename Ret>
+struct EqS { };
+template <int S, typename R> bool operator==(EqS<S, R> const&, EqS<S, R> const&) requires(S != 0);
+template <int S, typename R> bool operator!=(EqS<S, R> const&, EqS<S, R> const&) requires(S != 1);
+template <int S, typename R> EqB<S, R> operator==(EqS<S, R> const&, EqS<S, R> const&) requires(S == 0 and not std::is_same_v<R, Deleted>);
+template <int S, typename R> EqB<S, R> operator!=(EqS<S, R> const&, EqS<S, R> const&) requires(S == 1 and not std::is_same_v<R, Deleted>);
+template <int S, typename R> bool operator==(EqS<S, R> const&, EqS<S, R> const&) requires(S == 0 and std::is_same_v<R, Deleted>) = delete;
+template <int S, typename R> bool operator!=(EqS<S, R> const&, EqS<S, R> const&) requires(S == 1 and std::is_same_v<R, Deleted>) = delete;
+// one-directional swap, assignment with the wrong result type, construction without (nothrow) destruction
+struct SwA { };
+struct SwB { };
+inline void swap(SwA&, SwB&) noexcept { }
+struct SwC { };
+struct SwD { };
+inline void swap(SwC&, SwD&) noexcept { }
+inline void swap(SwD&, SwC&) noexcept(false) { }
+struct AssignReturnsValue {
+    AssignReturnsValue operator=(int) { return *this; }
+};
+struct AssignReturnsConstRef {
+    AssignReturnsConstRef const& operator=(int) { return *this; }
+};
+struct AssignReturnsInt {
+    int operator=(int) { return 0; }
+};
+struct DelDtorFromInt {
+    DelDtorFromInt(int) { }
+    ~DelDtorFromInt() = delete;
+};
+struct ThrowDtorFromInt {
+    ThrowDtorFromInt(int) noexcept { }
+    ~ThrowDtorFromInt() noexcept(false) { }
+};
 using FnPtr = void (*)();
 struct NoValue { }; // has no ::value (conjunction / disjunction short-circuit probes)
 enum E { e0, e1 };
@@ -434,6 +565,19 @@ inline int lam_capture_target   = 0;
 inline auto const lam_cap       = [p = &lam_capture_target](int x) { return *p + x; };
 using LambdaCap                 = decltype(lam_cap);
 } // namespace zoo
+
+namespace c15 {
+template <typename T> struct to_etl { using type = T; };
+template <typename T> struct to_etl<zoo::Ref<T>> { using type = etl::reference_wrapper<T>; };
+template <typename T> struct to_etl<zoo::Ref<T>&> { using type = etl::reference_wrapper<T>&; };
+template <typename T> struct to_etl<zoo::Ref<T> const&> { using type = etl::reference_wrapper<T> const&; };
+template <typename T> struct to_std { using type = T; };
+template <typename T> struct to_std<zoo::Ref<T>> { using type = std::reference_wrapper<T>; };
+template <typename T> struct to_std<zoo::Ref<T>&> { using type = std::reference_wrapper<T>&; };
+template <typename T> struct to_std<zoo::Ref<T> const&> { using type = std::reference_wrapper<T> const&; };
+template <typename T> using E = typename to_etl<T>::type;
+template <typename T> using S = typename to_std<T>::type;
+} // namespace c15
 
 // the same program-defined specialisations for both libraries: <L,R> = L, <R,L> = R (asymmetric), <L,X> = <X,L> = X, (R,X): none
 template <> struct std::common_type<zoo::UserL, zoo::UserR> { using type = zoo::UserL; };
